@@ -47,6 +47,28 @@
  * @param[in] d
  * @return HTP_OK on success, HTP_ERROR on failure.
  */
+/**
+ * Gives up the parameter table of a Urlencoded parser after the hand-over of its
+ * parameters to the transaction has failed half way: the names and values from
+ * index first on have not been handed over and are released here, those before it
+ * already belong to the transaction and are left alone.
+ *
+ * @param[in] urlenp
+ * @param[in] first
+ */
+static void htp_ch_urlencoded_abandon_params(htp_urlenp_t *urlenp, size_t first) {
+    bstr *name = NULL;
+
+    for (size_t i = first, n = htp_table_size(urlenp->params); i < n; i++) {
+        bstr *value = htp_table_get_index(urlenp->params, i, &name);
+        bstr_free(name);
+        bstr_free(value);
+    }
+
+    htp_table_destroy_ex(urlenp->params);
+    urlenp->params = NULL;
+}
+
 htp_status_t htp_ch_urlencoded_callback_request_body_data(htp_tx_data_t *d) {
     htp_tx_t *tx = d->tx;
 
@@ -68,7 +90,10 @@ htp_status_t htp_ch_urlencoded_callback_request_body_data(htp_tx_data_t *d) {
             value = htp_table_get_index(tx->request_urlenp_body->params, i, &name);
 
             htp_param_t *param = calloc(1, sizeof (htp_param_t));
-            if (param == NULL) return HTP_ERROR;
+            if (param == NULL) {
+                htp_ch_urlencoded_abandon_params(tx->request_urlenp_body, i);
+                return HTP_ERROR;
+            }
 
             param->name = name;
             param->value = value;
@@ -78,6 +103,7 @@ htp_status_t htp_ch_urlencoded_callback_request_body_data(htp_tx_data_t *d) {
 
             if (htp_tx_req_add_param(tx, param) != HTP_OK) {
                 free(param);
+                htp_ch_urlencoded_abandon_params(tx->request_urlenp_body, i);
                 return HTP_ERROR;
             }
         }
@@ -158,7 +184,10 @@ htp_status_t htp_ch_urlencoded_callback_request_line(htp_tx_t *tx) {
         value = htp_table_get_index(tx->request_urlenp_query->params, i, &name);
 
         htp_param_t *param = calloc(1, sizeof (htp_param_t));
-        if (param == NULL) return HTP_ERROR;
+        if (param == NULL) {
+            htp_ch_urlencoded_abandon_params(tx->request_urlenp_query, i);
+            return HTP_ERROR;
+        }
         
         param->name = name;
         param->value = value;
@@ -168,6 +197,7 @@ htp_status_t htp_ch_urlencoded_callback_request_line(htp_tx_t *tx) {
 
         if (htp_tx_req_add_param(tx, param) != HTP_OK) {
             free(param);
+            htp_ch_urlencoded_abandon_params(tx->request_urlenp_query, i);
             return HTP_ERROR;
         }
     }
@@ -190,6 +220,31 @@ htp_status_t htp_ch_urlencoded_callback_request_line(htp_tx_t *tx) {
  * @param[in] d
  * @return HTP_OK on success, HTP_ERROR on failure.
  */
+/**
+ * Gives up the text parts of a Multipart parser after the hand-over of their names
+ * and values to the transaction has failed half way: the parts from index first on
+ * have not been handed over and lose their name and value here, those before it
+ * already share them with the transaction, which now owns them.
+ *
+ * @param[in] mpartp
+ * @param[in] first
+ */
+static void htp_ch_multipart_abandon_params(htp_mpartp_t *mpartp, size_t first) {
+    htp_multipart_t *body = htp_mpartp_get_multipart(mpartp);
+
+    for (size_t i = first, n = htp_list_size(body->parts); i < n; i++) {
+        htp_multipart_part_t *part = htp_list_get(body->parts, i);
+        if (part->type == MULTIPART_PART_TEXT) {
+            bstr_free(part->name);
+            part->name = NULL;
+            bstr_free(part->value);
+            part->value = NULL;
+        }
+    }
+
+    mpartp->gave_up_data = 1;
+}
+
 htp_status_t htp_ch_multipart_callback_request_body_data(htp_tx_data_t *d) {
     htp_tx_t *tx = d->tx;
 
@@ -211,7 +266,10 @@ htp_status_t htp_ch_multipart_callback_request_body_data(htp_tx_data_t *d) {
             // Use text parameters.
             if (part->type == MULTIPART_PART_TEXT) {
                 htp_param_t *param = calloc(1, sizeof (htp_param_t));
-                if (param == NULL) return HTP_ERROR;
+                if (param == NULL) {
+                    htp_ch_multipart_abandon_params(tx->request_mpartp, i);
+                    return HTP_ERROR;
+                }
                 param->name = part->name;
                 param->value = part->value;
                 param->source = HTP_SOURCE_BODY;
@@ -220,6 +278,7 @@ htp_status_t htp_ch_multipart_callback_request_body_data(htp_tx_data_t *d) {
 
                 if (htp_tx_req_add_param(tx, param) != HTP_OK) {
                     free(param);
+                    htp_ch_multipart_abandon_params(tx->request_mpartp, i);
                     return HTP_ERROR;
                 }
             }
